@@ -203,6 +203,14 @@ impl Shared {
     }
 }
 
+/// a source of change events for the C06 gating monitor
+#[derive(Clone, Copy, Debug, PartialEq, Eq, PartialOrd, Ord)]
+pub enum GSrc {
+    Node(usize),
+    BindFn(usize),
+    RhsOf(usize),
+}
+
 #[derive(Clone, Copy, Debug, PartialEq, Eq)]
 pub enum GuardOwner {
     Main(usize),
@@ -437,6 +445,8 @@ pub struct Monitors {
     pub c08: bool,
     pub c13: bool,
     pub c12: bool,
+    /// gating half of C06 in worlds with necessity gaps (default cutoffs)
+    pub c06g: bool,
 }
 
 #[derive(Clone)]
@@ -486,6 +496,10 @@ pub struct World {
     pub poisoned: bool,
     /// strong-count probes of every node built from a spec
     pub weaks: Vec<Box<dyn Fn() -> usize>>,
+    /// C06 gating monitor: rounds in which a source produced an unsuppressed result
+    pub g_events: BTreeMap<GSrc, Vec<u32>>,
+    pub g_last_run: BTreeMap<NodeKey, u32>,
+    pub g_last_result: BTreeMap<NodeKey, SV>,
 }
 
 thread_local! {
@@ -561,6 +575,9 @@ impl World {
             crash_armed_once: false,
             poisoned: false,
             weaks: vec![],
+            g_events: BTreeMap::new(),
+            g_last_run: BTreeMap::new(),
+            g_last_result: BTreeMap::new(),
         };
         for s in cfg.specs.clone() {
             w.build(s);
@@ -614,6 +631,13 @@ impl World {
                 let v0 = fresh();
                 let v = self.state.as_ref().unwrap().var(v0.clone());
                 let h = v.watch();
+                if self.cfg.mon.c06g {
+                    let sh2 = self.sh.clone();
+                    h.set_cutoff_fn_boxed(move |a: &SV, b: &SV| {
+                        sh2.invoke(NodeKey::Cutoff(i), vec![a.clone(), b.clone()]);
+                        a == b
+                    });
+                }
                 self.vars.insert(i, (v, v0));
                 Handle::S(h)
             }
@@ -621,6 +645,14 @@ impl World {
                 let v0 = (fresh(), fresh());
                 let v = self.state.as_ref().unwrap().var(v0.clone());
                 let h = v.watch();
+                if self.cfg.mon.c06g {
+                    let sh2 = self.sh.clone();
+                    h.set_cutoff_fn_boxed(move |a: &Pair, b: &Pair| {
+                        let eq = a == b;
+                        sh2.invoke(NodeKey::Cutoff(i), vec![if eq { SV::lit(1) } else { SV::lit(0) }]);
+                        eq
+                    });
+                }
                 self.pvars.insert(i, (v, v0));
                 Handle::P(h)
             }
@@ -985,6 +1017,124 @@ impl World {
             Err(_) => {}
         }
         let _ = log_start;
+    }
+
+    /// did `src` (or, through transparent nodes, one of its inputs) produce an unsuppressed
+    /// result in a round of (lo, hi]?
+    fn g_changed(&self, j: usize, lo: u32, hi: u32, depth: u32) -> bool {
+        let hit = |s: GSrc| self.g_events.get(&s).map_or(false, |v| v.iter().any(|r| *r > lo && *r <= hi));
+        if depth > 8 {
+            return true;
+        }
+        match &self.nodes[j].spec {
+            Spec::Const => false,
+            Spec::Fst(a) | Spec::RefId(a) => self.g_changed(*a, lo, hi, depth + 1),
+            Spec::DependOn(a, b) => self.g_changed(*a, lo, hi, depth + 1) || self.g_changed(*b, lo, hi, depth + 1),
+            Spec::Bind { lhs, then, els } => {
+                if hit(GSrc::BindFn(j)) || hit(GSrc::RhsOf(j)) || self.g_changed(*lhs, lo, hi, depth + 1) {
+                    return true;
+                }
+                for r in [then, els] {
+                    match r {
+                        Rhs::Node(k) | Rhs::FreshMap(k) | Rhs::FreshMapCap(k) | Rhs::FreshChain(k) | Rhs::FreshGarbage(k) => {
+                            if self.g_changed(*k, lo, hi, depth + 1) {
+                                return true;
+                            }
+                        }
+                        Rhs::FreshBind(a, b) => {
+                            if self.g_changed(*a, lo, hi, depth + 1) || self.g_changed(*b, lo, hi, depth + 1) {
+                                return true;
+                            }
+                        }
+                        Rhs::FreshConst => {}
+                    }
+                }
+                false
+            }
+            _ => hit(GSrc::Node(j)),
+        }
+    }
+
+    /// C06, first half, with default cutoffs everywhere and nodes coming and going: a function
+    /// that has run before runs again only if one of its inputs produced a result, since then,
+    /// that its cutoff did not suppress.
+    fn c06_gating(&mut self, round: u32, log: &[Inv]) {
+        let mut i = 0;
+        while i < log.len() {
+            let inv = &log[i];
+            // group the calls of one fold evaluation
+            let mut last = i;
+            if let NodeKey::Main(n) = inv.key {
+                if matches!(self.nodes[n].spec, Spec::Fold(_)) {
+                    while last + 1 < log.len() && log[last + 1].key == inv.key {
+                        last += 1;
+                    }
+                }
+            }
+            let key = inv.key;
+            match key {
+                NodeKey::Cutoff(v) => {
+                    // a variable node was recomputed and compared old with new
+                    let changed = if inv.args.len() == 2 { !exec::decide(F::eq(&inv.args[0], &inv.args[1])) } else { matches!(&*inv.args[0].0, crate::term::T::Lit(0)) };
+                    if changed {
+                        self.g_events.entry(GSrc::Node(v)).or_default().push(round);
+                    }
+                }
+                NodeKey::Main(_) | NodeKey::BindFn(_) | NodeKey::Rhs(..) => {
+                    let inputs: Vec<usize> = match key {
+                        NodeKey::Main(n) => self.nodes[n].spec.inputs(),
+                        NodeKey::BindFn(n) => self.nodes[n].spec.inputs(),
+                        NodeKey::Rhs(b, branch, _, pos) => match &self.nodes[b].spec {
+                            Spec::Bind { then, els, .. } => match if branch { then } else { els } {
+                                Rhs::FreshMap(j) | Rhs::FreshMapCap(j) | Rhs::FreshGarbage(j) => vec![*j],
+                                Rhs::FreshChain(j) => if pos == 0 { vec![*j] } else { vec![] },
+                                Rhs::FreshBind(a, k) => if pos == 9 { vec![*a] } else { vec![*k] },
+                                _ => vec![],
+                            },
+                            _ => vec![],
+                        },
+                        _ => vec![],
+                    };
+                    let chain_second = matches!(key, NodeKey::Rhs(_, _, _, 1));
+                    if let Some(prev) = self.g_last_run.get(&key).copied() {
+                        cover("function-ran-again");
+                        let ok = chain_second || inputs.iter().any(|j| self.g_changed(*j, prev, round, 0));
+                        if !ok {
+                            let role = self.role_name(key);
+                            violation(&format!("C06/reinvoked-without-unsuppressed-input/{role}"), format!("{key:?} ran in stabilise #{round}; it last ran in #{prev} and none of its inputs {inputs:?} produced an unsuppressed result since"));
+                        }
+                    }
+                    // its own result
+                    let f = match key {
+                        NodeKey::Main(n) => Some(n as u16),
+                        _ => None,
+                    };
+                    let src = match key {
+                        NodeKey::Main(n) => GSrc::Node(n),
+                        NodeKey::BindFn(n) => GSrc::BindFn(n),
+                        NodeKey::Rhs(b, ..) => GSrc::RhsOf(b),
+                        NodeKey::Cutoff(n) => GSrc::Node(n),
+                    };
+                    let changed = match f {
+                        Some(f) => {
+                            let res = app(f, &log[last].args);
+                            let ch = match self.g_last_result.get(&key) {
+                                None => true,
+                                Some(p) => !exec::decide(F::eq(p, &res)),
+                            };
+                            self.g_last_result.insert(key, res);
+                            ch
+                        }
+                        None => true,
+                    };
+                    if changed {
+                        self.g_events.entry(src).or_default().push(round);
+                    }
+                    self.g_last_run.insert(key, round);
+                }
+            }
+            i = last + 1;
+        }
     }
 
     fn c06_after_stabilise(&mut self, round: u32, log: &[Inv]) {
@@ -1964,6 +2114,9 @@ impl World {
         }
         if self.cfg.mon.c06 {
             self.c06_after_stabilise(round, &log);
+        }
+        if self.cfg.mon.c06g {
+            self.c06_gating(round, &log);
         }
         self.written.clear();
         if self.cfg.mon.c08 {
